@@ -127,18 +127,24 @@ def clone_ctx(ctx):
         buf = r1 if r1.flags.c_contiguous else r1.T          # a C-contiguous window on the copied root
         return np.ndarray(shape=a.shape, dtype=a.dtype, buffer=buf, offset=off, strides=a.strides)
 
-    def cobj(o):
-        if o is None:
-            return None
-        n = copy.copy(o)
-        for k, v in list(n.__dict__.items()):
-            n.__dict__[k] = amap(v) if isinstance(v, np.ndarray) else copy.deepcopy(v)
-        return n
-
+    # every array the caller can reach directly is cloned alias-preservingly and entered into the deepcopy memo, so
+    # that any other reference to the SAME array object (e.g. a memo inside the library object that remembers "the
+    # array my cached value was computed from") is mapped to the same clone: identity relations survive as well
+    memo = {}
+    keep = []
+    for o in (ctx.obj, ctx.held):
+        if o is not None:
+            for v in o.__dict__.values():
+                if isinstance(v, np.ndarray) and id(v) not in memo:
+                    memo[id(v)] = amap(v)
+                    keep.append(v)
+    for (arr, _snap) in ctx.inputs:
+        if id(arr) not in memo:
+            memo[id(arr)] = amap(arr)
+            keep.append(arr)
     c = copy.copy(ctx)
-    c.obj = cobj(ctx.obj)
-    c.held = cobj(ctx.held)
-    c.inputs = [(amap(arr), snap) for (arr, snap) in ctx.inputs]
+    c.obj, c.held, arrs = copy.deepcopy((ctx.obj, ctx.held, [arr for (arr, _s) in ctx.inputs]), memo)
+    c.inputs = [(a2, snap) for a2, (_a, snap) in zip(arrs, ctx.inputs)]
     return c
 
 
